@@ -52,7 +52,7 @@ def _send_frame_paths(ctx):
         return l
 
     stubs[f"{W}._send"] = _send
-    I = Interp(ctx.index, Config(stubs=stubs, loop_unroll=3))
+    I = Interp(ctx.index, Config(stubs=stubs, loop_unroll=6 if ctx.tier == "thorough" else 3))
 
     def body(run):
         ws = mk_websocket(I, run)
